@@ -1,10 +1,11 @@
 #!/bin/bash
 # Offline setup: build the harness (plain and -race) and the dirk binary once so the caches are warm.
 set -e
-cd /verif
+ROOT=$(cd "$(dirname "${BASH_SOURCE[0]}")" && pwd)
+cd "$ROOT"
 export GOFLAGS=-mod=mod GOPROXY=off GOSUMDB=off GOTOOLCHAIN=local CGO_ENABLED=1
 mkdir -p .bin .work evidence
 tools/gen-gomod.sh
-(cd harness && go build -tags verif -o /verif/.bin/vh ./cmd/vh && go build -race -tags verif -o /verif/.bin/vh-race ./cmd/vh)
-(cd /repo && go build -tags verif -o /verif/.bin/dirk .)
+(cd harness && go build -tags verif -o "$ROOT/.bin/vh" ./cmd/vh && go build -race -tags verif -o "$ROOT/.bin/vh-race" ./cmd/vh)
+(cd /repo && go build -tags verif -o "$ROOT/.bin/dirk" .)
 echo setup ok
